@@ -124,6 +124,129 @@ const LINE_NEUTRAL: [&str; 16] = [
     "'remove_attribute'",
 ];
 
+/// one marked source file for the bundle flow; markers are numbered from `base`; a module returns exactly one value
+fn marked_file(r: &mut Rng, base: u32, module: bool) -> String {
+    let mut f = Feat::default();
+    f.max_stmts = 4 + r.below(14);
+    f.avoid = vec!["and_or_multivalue_tail".into()];
+    let (mut block, _) = prog::generate(r, f);
+    if module {
+        // the generated program returns a list: a module returns one value, here a call whose arguments span lines
+        if let Some(Stmt::Return(es)) = block.stmts.last().cloned() {
+            let mut args = vec![Expr::str("#")];
+            args.extend(es);
+            let n = block.stmts.len();
+            block.stmts[n - 1] = Stmt::Return(vec![match r.below(3) {
+                0 => Expr::call(Expr::name("select"), args),
+                1 => Expr::Table(args.into_iter().map(TableItem::Pos).collect()),
+                _ => Expr::call(Expr::name("pack"), args),
+            }]);
+        }
+    }
+    let marked = {
+        let mut m = Marker { r, next: base };
+        m.block(&block)
+    };
+    let mut p = Printer::new(PrintOpts::default());
+    p.block(&marked);
+    let o = LayoutOpts { newline: 0, comment_pct: *r.pick(&[0, 5]), newline_pct: *r.pick(&[10, 25, 40]), trailing_newline: r.bool(), tabs: false, statement_lines: r.chance(3, 4), doc_block_pct: 0 };
+    let (text, _) = layout_tokens(&p.toks, r, &o);
+    if tokens_preserved(&text, &p.toks) {
+        text
+    } else {
+        layout_tokens(&p.toks, r, &LayoutOpts { comment_pct: 0, ..o }).0
+    }
+}
+
+/// an entry and 1-3 modules, each with its own range of markers, bundled with retain_lines
+fn bundle_case(r: &mut Rng) -> Case {
+    let n = 1 + r.below(3);
+    let mut files = serde_json::Map::new();
+    let mut header = String::new();
+    for i in 0..n {
+        let name = ["a", "b", "c"][i];
+        files.insert(format!("src/{}.lua", name), json!(marked_file(r, 1000 * (i as u32 + 1), true)));
+        // the requires stand at the top of the entry, sometimes two on a line
+        header.push_str(&format!("local dep_{} = require(\"./{}\"){}", name, name, if r.chance(1, 4) { " " } else { "\n" }));
+    }
+    if !header.ends_with('\n') {
+        header.push('\n');
+    }
+    files.insert("src/main.lua".into(), json!(format!("{}{}", header, marked_file(r, 0, false))));
+    let mut rules: Vec<String> = vec![];
+    if r.chance(3, 4) {
+        rules.push("'remove_spaces'".into());
+    }
+    if r.bool() {
+        rules.push("'remove_comments'".into());
+    }
+    // (line-neutral rules that have no listed line-tracking finding of their own)
+    const BUNDLE_RULES: [&str; 8] = ["'convert_luau_number'", "'make_assignment_local'", "{ rule: 'inject_global_value', identifier: 'INJ', value: 7 }", "'convert_local_function_to_assign'", "'convert_function_to_assignment'", "'convert_square_root_call'", "'remove_attribute'", "'remove_continue'"];
+    for _ in 0..r.below(3) {
+        rules.push(r.pick(&BUNDLE_RULES).to_string());
+    }
+    json!({"kind": "bundle", "files": files, "rules": rules})
+}
+
+fn run_bundle(case: &Case, cov: &mut Cov) -> Verdict {
+    let rules: Vec<String> = case["rules"].as_array().map(|a| a.iter().filter_map(|x| x.as_str().map(|s| s.to_string())).collect()).unwrap_or_default();
+    let files: Vec<(String, String)> = case["files"].as_object().map(|m| m.iter().map(|(k, v)| (k.clone(), v.as_str().unwrap_or("").to_string())).collect()).unwrap_or_default();
+    let mut input: BTreeMap<String, (String, u32)> = BTreeMap::new();
+    for (path, text) in &files {
+        if dl::parse_tokens(text).is_err() {
+            return Verdict::discard("darklua's parser rejects a generated file");
+        }
+        let Some(m) = marker_lines(text) else { return Verdict::discard("reference lexer rejects a generated file") };
+        for (k, line) in m {
+            input.insert(k, (path.clone(), line));
+        }
+    }
+    let config = format!("{{ bundle: {{ require_mode: 'path' }}, generator: 'retain_lines', rules: [{}] }}", rules.join(", "));
+    let out = dl::process_memory(&files, &config, "src/main.lua", Some("out/bundle.lua"), "out");
+    if !out.ok {
+        let e = out.errors.first().cloned().unwrap_or_default();
+        if e.starts_with("config:") {
+            return Verdict::discard("configuration rejected");
+        }
+        return Verdict::violated("bundle:process-error", format!("bundling a parsable project fails: {}\nrules {:?}", e.lines().next().unwrap_or(""), rules));
+    }
+    let Some(text) = out.files.values().next().cloned() else { return Verdict::violated("bundle:no-output", "no bundle was written".to_string()) };
+    let Some(outm) = marker_lines(&text) else {
+        return Verdict::violated("bundle:output-unlexable", format!("the reference lexer rejects the bundle\nrules {:?}\n--- bundle\n{}", rules, text));
+    };
+    // every file keeps its own uniform shift
+    let mut shift: BTreeMap<String, (i64, String)> = BTreeMap::new();
+    let mut survivors = 0u64;
+    for (m, ol) in &outm {
+        let Some((path, il)) = input.get(m) else { continue };
+        survivors += 1;
+        let d = *ol as i64 - *il as i64;
+        match shift.get(path) {
+            None => {
+                shift.insert(path.clone(), (d, m.clone()));
+            }
+            Some((s0, first)) if *s0 != d => {
+                let names = rule_names(&rules);
+                let mut listing = String::new();
+                for (p, t) in &files {
+                    listing.push_str(&format!("--- {}\n{}\n", p, t));
+                }
+                return Verdict::violated(
+                    "bundle:marker-moved",
+                    format!("in {} marker {} moved by {} lines but marker {} of the same file moved by {} (line {} -> {})\nrules {:?}\n{}--- bundle\n{}", path, first, s0, m, d, il, ol, names, listing, text),
+                );
+            }
+            _ => {}
+        }
+    }
+    cov.add("markers_checked", survivors);
+    cov.hit("kind:bundle");
+    cov.add("bundle_files_with_markers", shift.len() as u64);
+    let src_all: String = files.iter().map(|(p, t)| format!("{}\u{1}{}", p, t)).collect::<Vec<_>>().join("\u{2}");
+    cov.eval(if survivors >= 3 { Some(hash64(format!("{}|{:?}", src_all, rules).as_bytes())) } else { None });
+    Verdict::Held
+}
+
 fn marker_lines(text: &str) -> Option<BTreeMap<String, u32>> {
     let lx = lex(text, true).ok()?;
     let mut m = BTreeMap::new();
@@ -157,6 +280,9 @@ impl Monitor for C04 {
     }
     fn gen(&mut self, _tier: Tier, seed: u64, index: u64) -> Option<Case> {
         let mut r = case_rng("C04", seed, index);
+        if r.chance(1, 6) {
+            return Some(bundle_case(&mut r));
+        }
         let pipeline_b = r.bool();
         let mut f = Feat::default();
         f.max_stmts = 8 + r.below(30);
@@ -192,7 +318,7 @@ impl Monitor for C04 {
                 }
             }
         }
-        let o = LayoutOpts { newline: r.below(3) as u8, comment_pct: *r.pick(&[0, 5, 10]), newline_pct: *r.pick(&[10, 25, 40]), trailing_newline: r.bool(), tabs: r.bool(), statement_lines: r.chance(3, 4) };
+        let o = LayoutOpts { newline: r.below(3) as u8, comment_pct: *r.pick(&[0, 5, 10]), newline_pct: *r.pick(&[10, 25, 40]), trailing_newline: r.bool(), tabs: r.bool(), statement_lines: r.chance(3, 4), doc_block_pct: *r.pick(&[0, 0, 10, 30]) };
         let (mut text, _) = layout_tokens(&p.toks, &mut r, &o);
         if !tokens_preserved(&text, &p.toks) {
             let (t2, _) = layout_tokens(&p.toks, &mut r, &LayoutOpts { comment_pct: 0, ..o });
@@ -232,6 +358,9 @@ impl Monitor for C04 {
     }
 
     fn run(&mut self, case: &Case, cov: &mut Cov) -> Verdict {
+        if case["kind"] == "bundle" {
+            return run_bundle(case, cov);
+        }
         let src = case["src"].as_str().unwrap_or("");
         let rules: Vec<String> = case["rules"].as_array().map(|a| a.iter().filter_map(|x| x.as_str().map(|s| s.to_string())).collect()).unwrap_or_default();
         if dl::parse_tokens(src).is_err() {
